@@ -114,6 +114,9 @@ struct sim_allocator {
     { usim::np_scope np; auto& s = alloc_stats(id); s.deallocs++; s.bytes -= (long)(n * sizeof(T)); KIT_TRACE("allocator %d: deallocate %zu bytes", id, n * sizeof(T)); }
     ::operator delete(p);
   }
+  // pmr-style: a container copy does not inherit the arena. An adaptor that stores "a copy-constructed" allocator instead of
+  // the one visible through its receiver ends up on arena 4, which nothing in a run may ever use.
+  sim_allocator select_on_container_copy_construction() const noexcept { return sim_allocator(4); }
   template <class U>
   bool operator==(const sim_allocator<U>& o) const noexcept { return id == o.id; }
   template <class U>
